@@ -576,3 +576,99 @@ def explain_subset(*a):
 
 
 EXPLAIN["_subset"] = explain_subset
+
+
+# ------------------------------------------------------------------ lint-file: the command's own path handling
+# The files are named relative to the working directory, which need not be the project root.
+import click as _click  # noqa: E402
+
+import reuse.cli.lint_file as lf  # noqa: E402
+
+CWDS = ["/proj", "/proj/docs", "/proj/src"]
+# (spelling of the root as seen from the working directory, by index of CWDS)
+ROOTS_FROM = {"/proj": ["/proj", "."], "/proj/docs": ["/proj", "..", "../docs/.."], "/proj/src": ["/proj", ".."]}
+# files that exist, named from each working directory
+NAMED_FROM = {
+    "/proj": ["src/a.py", "./top.py", "docs/../top.py", "/proj/docs/c.py"],
+    "/proj/docs": ["c.py", "../src/a.py", "../top.py", "/proj/src/a.py"],
+    "/proj/src": ["a.py", "./b.py", "../docs/c.py", "/proj/top.py"],
+}
+
+
+class _Stop(Exception):
+    pass
+
+
+def lintfile_story(w, r, f):
+    global CWD
+    cwd = CWDS[_pick_from(w, list(range(len(CWDS))))]
+    roots = ROOTS_FROM[cwd]
+    root = roots[_pick_from(r, list(range(len(roots))))]
+    names = NAMED_FROM[cwd]
+    named = names[_pick_from(f, list(range(len(names))))]
+    FakePath.FS = {"/proj": "dir", "/proj/src": "dir", "/proj/src/a.py": "file", "/proj/src/b.py": "file", "/proj/top.py": "file", "/proj/docs": "dir", "/proj/docs/c.py": "file"}
+    tree = {"/proj": (["docs", "src"], ["top.py"]), "/proj/src": ([], ["a.py", "b.py"]), "/proj/docs": ([], ["c.py"])}
+    saved_cwd = CWD
+    CWD = cwd
+    captured = []
+
+    def fake_generate(project, subset_files, multiprocessing=False):
+        # what the walk would examine for this request: the real iter_files over the model
+        captured.extend(sorted(posixpath.normpath(p._abs()) for p in cf.iter_files(project.root, subset_files=subset_files)))
+        raise _Stop()
+
+    saved = (cf.Path, cf.os.walk, lf.Path, lf.ProjectSubsetReport.generate, pj.Path)
+    cf.Path = SpellPath
+    lf.Path = SpellPath
+    pj.Path = SpellPath
+
+    class _Obj:
+        no_multiprocessing = True
+        project = pj.Project(SpellPath(root), vcs_strategy=None, license_map={}, licenses={})
+
+    # the attrs converter is the real Path class, bound when the class was defined: put the model path back
+    object.__setattr__(_Obj.project, "root", SpellPath(root))
+
+    cf.os.walk = spelled_walk(tree)
+    lf.ProjectSubsetReport.generate = staticmethod(fake_generate)
+    outcome = "returned"
+    try:
+        try:
+            cb = lf.lint_file.callback
+            cb = getattr(cb, "__wrapped__", cb)
+            cb(_Obj, False, True, [SpellPath(named)])
+        except _Stop:
+            outcome = "report"
+        except _click.UsageError:
+            outcome = "usage-error"
+        except SystemExit:
+            outcome = "exit"
+    finally:
+        cf.Path, cf.os.walk, lf.Path, lf.ProjectSubsetReport.generate, pj.Path = saved
+        CWD = saved_cwd
+    want = [posixpath.normpath(named if named.startswith("/") else cwd + "/" + named)]
+    ok = outcome == "report" and captured == want
+    return ok, {"cwd": cwd, "root": root, "named": named, "outcome": outcome, "examined": captured, "expected": want}
+
+
+def _lintfile(w: int, r: int, f: int) -> bool:
+    """
+    pre: 0 <= w < 3 and 0 <= r < 3 and 0 <= f < 4
+    post: _
+    """
+    return lintfile_story(w, r, f)[0]
+
+
+def _lintfile_reach(w: int, r: int, f: int) -> bool:
+    """
+    pre: 0 <= w < 3 and 0 <= r < 3 and 0 <= f < 4
+    post: False
+    """
+    return lintfile_story(w, r, f)[0]
+
+
+def explain_lintfile(*a):
+    return lintfile_story(*a)[1]
+
+
+EXPLAIN["_lintfile"] = explain_lintfile
